@@ -8,7 +8,7 @@
 use std::net::{IpAddr, SocketAddr};
 use std::str::FromStr;
 
-use kawa::{AsBuffer, Block, Kawa, Kind, OutBlock, ParsingPhase};
+use kawa::{AsBuffer, Kawa, Kind, OutBlock, ParsingPhase};
 use rusty_ulid::Ulid;
 use sozu_lib::pool::{Checkout, Pool};
 use sozu_lib::protocol::http::editor::{HeaderEditMode, HeaderEditSnapshot, HttpContext};
@@ -506,10 +506,8 @@ fn run(case: &Case, out: &mut Out) {
                         for (k, v) in &input_trs {
                             enc.encode_header_into((&k[..], &v[..]), &mut tb_).unwrap();
                         }
-                        // an empty chunked body, closed by the DATA path in h2.rs: mirror
-                        // its end-of-body flags so the serialisers terminate the body
-                        kawa.push_block(Block::Flags(kawa::Flags { end_body: true, end_chunk: false, end_header: false, end_stream: false }));
-                        kawa.parsing_phase = ParsingPhase::Trailers;
+                        // HEADERS (no END_STREAM), no DATA, trailer HEADERS (END_STREAM): exactly
+                        // what mux/h2.rs does on this path is the second handle_header call
                         let r = handle_header(&mut dec, &mut prio, 1, &mut kawa, &tb_, true, ctx, 65536, 200, cfg.elide);
                         if let Err((e, _)) = r {
                             rejected = Some(format!("h2-trailer-{e:?}"));
